@@ -1,24 +1,25 @@
 (* PropC05.v — C05: no accepted program can crash the interpreter.
 
-   Proved here: every operator of the value algebra, on every pair of operand
-   values, returns a value or one of the documented errors (no partial
+   Proved here: (1) every operator of the value algebra, on every pair of
+   operand values, returns a value or one of the documented errors (no partial
    function, no division fault), for all 15 binary and 3 unary operators and
-   both index forms; a nil operand is always an error.  NOT proved: that the
-   compiled code of every parseable program keeps the VM away from its
-   internal faults ([C05_no_abort_statement], open).  The check decides that
-   part on adversarial generated programs run on the real code (a recovered
-   Go panic or a hang is a violation) and compares with the VM model, in which
-   every internal fault of vm.go / memory.go / bytecoder.go is the Abort outcome. *)
+   both index forms; a nil operand is always an error.  (2) The compiler model
+   never panics: on every tree of the shape the parser and the resolver produce
+   (wfb: known operators, variable references where variables are required,
+   as many loop variables as iterators, blocks only as bodies) and from every
+   state, both entry points return code or the refusal of an oversize program,
+   never an abort — every back-patch hits an instruction emitted before, every
+   operand selector exists (CompileProofs.v, CompileLoops.v: a Hoare logic over
+   the compiler monad, the five list-shaped loops by their own inductions).
+   That the trees of a run have this shape is evaluated on every resolved tree
+   of the run (chk_wfb).  NOT proved: that the compiled code keeps the VM away
+   from its internal faults; the check decides that on adversarial generated
+   programs run on the real code (a recovered Go panic or a hang is a
+   violation) and compares with the VM model, in which every internal fault of
+   vm.go / memory.go / bytecoder.go is the Abort outcome. *)
 Require Import Calc.Base Calc.Bytecode Calc.Value Calc.FloatText Calc.Ast Calc.Resolve Calc.Compile
-        Calc.VM Calc.Session Calc.ValueProofs.
+        Calc.VM Calc.Session Calc.ValueProofs Calc.CompileWf Calc.CompileProofs Calc.CompileLoops.
 Open Scope Z_scope.
-
-Definition C05_no_abort_statement : Prop :=
-  forall (history : list node) (t : node),
-    let mc := fold_left (fun acc x => fst (run_tree false acc x)) history
-                        (match machine_new with Some m => m | None => {| mc_cs := cstate0; mc_vm := vm_new |} end) in
-    (forall x, In x (t :: history) -> exists s : string, True (* x is a tree the parser returns for some input s; made precise with the grammar model of C06/C07 *)) ->
-    forall w, snd (run_tree false mc t) <> TAbort w.
 
 Theorem C05_operators_total : forall c a b i j,
   res_documented (apply_binop c a b) /\ res_documented (Flip a) /\ res_documented (Not a) /\
@@ -44,3 +45,32 @@ Print Assumptions C05_index_out_of_range_is_an_error.
 Theorem C05_shift_total : forall op x y, exists r, Shift op (VInt x) (VInt y) = Ok (VInt r).
 Proof. intros. eexists. reflexivity. Qed.
 Print Assumptions C05_shift_total.
+
+(* ---- the compiler ---- *)
+Theorem C05_compiler_never_panics : forall n s, wfb n = true -> 0 <= ncs s ->
+  (forall w, ByteCode n s <> CompAbort w) /\ (forall w, ByteCodeNoStck n s <> CompAbort w).
+Proof. exact bytecode_never_aborts. Qed.
+Print Assumptions C05_compiler_never_panics.
+
+(* every node, with every operand selector that exists, in every flag context, from every state: no abort, and the code only grows *)
+Theorem C05_every_node_compiles_safely : forall n, wfc n = true ->
+  forall srcsel fl s, 0 <= srcsel <= 2 -> 0 <= ncs s ->
+    match comp n srcsel fl s with
+    | CAbort _ => False
+    | CRange => True
+    | COk (_, s') => ncs s <= ncs s'
+    end.
+Proof.
+  intros n W srcsel fl s Hs Hn.
+  destruct (compiler_never_panics (nsize n) n (le_n _)) as [H _]. exact (H W srcsel fl s Hs Hn).
+Qed.
+Print Assumptions C05_every_node_compiles_safely.
+
+(* the hypothesis is met by a real tree: a function with a for loop over two iterators, conditions, a block *)
+Example C05_wfb_nonvacuous :
+  wfb (NBlock [NAssign (NName "f") (NFunction [NName "a"] (NBlock [
+          NFor [NLocal 1 "i"; NLocal 2 "j"] [NCall (NName "fromto") [NInt 0; NLocal 0 "a"]; NList [NInt 1; NLocal 0 "a"]]
+               (NIf (NUn "!" (NBin "<" (NLocal 1 "i") (NLocal 2 "j"))) (NYield (NBin "+" (NLocal 1 "i") (NInt 1))));
+          NWhile (NBool true) (NReturn (NIndexFromTo (NStr "abc") (NInt 0) (NUn "#" (NStr "abc"))))]) 3);
+        NCall (NName "f") [NInt 2]]) = true.
+Proof. reflexivity. Qed.
